@@ -857,3 +857,11 @@ V("components of a pair of lines from the square roots of the diagonal of the ad
 V("components: the skew symmetric correction subtracted and the column taken for both components", "C15", CURVE,
   "        p, q = t[indices + i[:1]], t[(*indices, slice(None), i[1])]", "        p, q = t[(*indices, slice(None), i[0])], t[(*indices, slice(None), i[1])]", "E19.comp", "QuadricTensor.components")
 V("twin: components with the correction subtracted", "C15", CURVE, "        t = self.array + m\n", "        t = self.array - m\n", "silent")
+
+
+# ------------------------------------------------------------------------------------------------ the point distance in the plane (E19.dist)
+V("point distance with the factor 2", "C09", OPERATORS, "        return 4 * np.abs(np.sqrt(pqi * pqj) / (pij * qij))", "        return 2 * np.abs(np.sqrt(pqi * pqj) / (pij * qij))", "E19.dist", "_point_dist")
+V("point distance with the bracket [p, q, I] taken twice", "C09", OPERATORS, "    pqj = det(np.stack([p, q, j], axis=-2))", "    pqj = det(np.stack([p, q, i], axis=-2))", "E19.dist", "_point_dist")
+V("point distance normalised by [p, I, J] only", "C09", OPERATORS, "        return 4 * np.abs(np.sqrt(pqi * pqj) / (pij * qij))", "        return 4 * np.abs(np.sqrt(pqi * pqj) / (pij * pij))", "E19.dist", "_point_dist")
+V("twin: point distance with the magnitude of numerator and denominator taken separately", "C09", OPERATORS, "        return 4 * np.abs(np.sqrt(pqi * pqj) / (pij * qij))",
+  "        return 4 * np.abs(np.sqrt(pqj * pqi)) / np.abs(qij * pij)", "silent")
